@@ -57,7 +57,33 @@ func TestC12(t *testing.T) {
 	Ev.Component("bsdiff.DiffContext.Do (PSA, analyzeBlock workers, dispatcher, collector, writeMessages), PatchContext.Patch, IndividualPatchContext.Apply, lrufile", "real")
 	Ev.Component("old/new readers (short reads), message sink, goroutine schedule", "simulated")
 	Prop(t, "C12", func(rt *rapid.T) {
+		// contexts are meant to be reused from one file to the next (rediff and the patcher do): a case
+		// is a short sequence of pairs going through the same DiffContext and the same PatchContexts
+		npairs := rapid.IntRange(1, 3).Draw(rt, "npairs")
+		sharedDC := &bsdiff.DiffContext{}
+		sharedPC, sharedPC2 := bsdiff.NewPatchContext(), bsdiff.NewPatchContext()
+		var prevOld []byte
+		for pi := 0; pi < npairs; pi++ {
+			if !c12One(t, rt, pi, sharedDC, sharedPC, sharedPC2, &prevOld) {
+				return
+			}
+		}
+	})
+}
+
+func c12One(t *testing.T, rt *rapid.T, pi int, sharedDC *bsdiff.DiffContext, sharedPC, sharedPC2 *bsdiff.PatchContext, prevOld *[]byte) bool {
+	{
 		old, nw, kind := genBsdiffPair(rt)
+		if pi > 0 && len(*prevOld) > 0 && rapid.IntRange(0, 2).Draw(rt, "relatedtoprev") == 0 {
+			// a smaller old file after a bigger one, and new content that recurs in the earlier old file
+			po := *prevOld
+			cut := rapid.IntRange(0, len(po)/2).Draw(rt, "prevcut")
+			old = append([]byte{}, po[:cut]...)
+			a := rapid.IntRange(cut, len(po)-1).Draw(rt, "preva")
+			nw = append(append([]byte{}, old...), po[a:min(len(po), a+rapid.IntRange(1, 5000).Draw(rt, "prevl"))]...)
+			kind = "smaller-old-after-bigger"
+		}
+		*prevOld = old
 		partitions := rapid.IntRange(0, 16).Draw(rt, "partitions")
 		conc := rapid.IntRange(-1, 4).Draw(rt, "suffixconc")
 		spec := drawSched(rt)
@@ -68,7 +94,8 @@ func TestC12(t *testing.T) {
 		var derr error
 		s := &Sched{Spec: spec, MaxSteps: 400000}
 		s.Run(t, func() {
-			dc := &bsdiff.DiffContext{Partitions: partitions, SuffixSortConcurrency: conc}
+			dc := sharedDC
+			dc.Partitions, dc.SuffixSortConcurrency = partitions, conc
 			derr = dc.Do(NewSliceReader(old, rmode, spec.Seed, false, rmode == 2), NewSliceReader(nw, rmode, spec.Seed+1, false, rmode == 3), func(m proto.Message) error {
 				s.Yield("sink")
 				msgs = append(msgs, cloneCtrl(m))
@@ -76,30 +103,30 @@ func TestC12(t *testing.T) {
 			}, Quiet())
 		})
 		if s.BudgetExceeded {
-			return
+			return false
 		}
 		if s.Stuck {
 			Violation(rt, "C12/differ-stuck", "bsdiff Do deadlocked (%s)\n%s\ntrace tail:\n%s", setup, s.StuckStacks, joinLines(tail(s.Log, 40), 40))
-			return
+			return false
 		}
 		if s.Panic != "" {
 			Violation(rt, "C12/differ-panic", "bsdiff Do panicked (%s): %s", setup, s.Panic)
-			return
+			return false
 		}
 		if derr != nil {
 			Violation(rt, "C12/differ-error", "bsdiff Do returned %v (%s)", derr, setup)
-			return
+			return false
 		}
 		// exactly one Eof, at the end
 		for i, m := range msgs {
 			if m.Eof != (i == len(msgs)-1) {
 				Violation(rt, "C12/eof-message", "message %d of %d has Eof=%v (%s)", i, len(msgs), m.Eof, setup)
-				return
+				return false
 			}
 		}
 		if len(msgs) == 0 {
 			Violation(rt, "C12/eof-message", "no message at all, expected an end-of-series message (%s)", setup)
-			return
+			return false
 		}
 		total := 0
 		for _, m := range msgs {
@@ -107,21 +134,21 @@ func TestC12(t *testing.T) {
 		}
 		if total != len(nw) {
 			Violation(rt, "C12/length-sum", "add+copy lengths sum to %d, new has %d bytes (%s)", total, len(nw), setup)
-			return
+			return false
 		}
 		ref, _, rerr := RefBsdiffApply(msgs, old, 0)
 		if rerr != nil {
 			Violation(rt, "C12/add-outside-old", "%v (%s)", rerr, setup)
-			return
+			return false
 		}
 		if !bytes.Equal(ref, nw) {
 			Violation(rt, "C12/wrong-reconstruction", "reference application differs from new at %d (len %d vs %d) (%s)", firstDiff(ref, nw), len(ref), len(nw), setup)
-			return
+			return false
 		}
 		// real applier
 		var out bytes.Buffer
 		i := 0
-		pc := bsdiff.NewPatchContext()
+		pc := sharedPC
 		var perr error
 		if p := Recover(func() {
 			perr = pc.Patch(bytes.NewReader(old), &out, int64(len(nw)), func(m proto.Message) error {
@@ -135,11 +162,11 @@ func TestC12(t *testing.T) {
 			})
 		}); p != "" || perr != nil {
 			Violation(rt, "C12/patch-failed", "PatchContext.Patch: %v %s (%s)", perr, p, setup)
-			return
+			return false
 		}
 		if !bytes.Equal(out.Bytes(), nw) {
 			Violation(rt, "C12/patch-wrong", "PatchContext.Patch output differs from new at %d (%s)", firstDiff(out.Bytes(), nw), setup)
-			return
+			return false
 		}
 		// resume: record (old offset, bytes written) before every message with the real applier,
 		// then restart from every k-th message in a fresh context
@@ -149,14 +176,14 @@ func TestC12(t *testing.T) {
 		}
 		var marks []mark
 		var full bytes.Buffer
-		pc2 := bsdiff.NewPatchContext()
+		pc2 := sharedPC2
 		ipc, err := pc2.NewIndividualPatchContext(bytes.NewReader(old), 0, &full)
 		Must(err, "NewIndividualPatchContext")
 		for _, m := range msgs[:len(msgs)-1] {
 			marks = append(marks, mark{ipc.OldOffset, full.Len()})
 			if aerr := ipc.Apply(m); aerr != nil {
 				Violation(rt, "C12/apply-failed", "Apply: %v (%s)", aerr, setup)
-				return
+				return false
 			}
 		}
 		stride := 1 + len(marks)/12
@@ -169,12 +196,12 @@ func TestC12(t *testing.T) {
 			for _, m := range msgs[j : len(msgs)-1] {
 				if aerr := ipc3.Apply(m); aerr != nil {
 					Violation(rt, "C12/resume-apply-failed", "resumed at message %d (old offset %d): %v (%s)", j, marks[j].oldOff, aerr, setup)
-					return
+					return false
 				}
 			}
 			if !bytes.Equal(rest.Bytes(), nw[marks[j].written:]) {
 				Violation(rt, "C12/resume-wrong", "resumed at message %d (old offset %d, %d bytes already written): remainder differs at %d (%s)", j, marks[j].oldOff, marks[j].written, firstDiff(rest.Bytes(), nw[marks[j].written:]), setup)
-				return
+				return false
 			}
 			resumes++
 			Ev.Fault("resume_from_saved_old_offset", 1)
@@ -186,7 +213,8 @@ func TestC12(t *testing.T) {
 		Ev.Eval(fnv64(old, nw, []byte{byte(partitions)})^s.LogHash(), len(old) > 0 && len(nw) > 0, func() interface{} {
 			return map[string]interface{}{"setup": setup, "messages": len(msgs), "resumes": resumes, "sched_steps": s.Steps, "schedule": s.Trace(30)}
 		})
-	})
+	}
+	return true
 }
 
 // TestC12Lru: the chunked LRU read cache behaves like a plain in-memory reader for every
